@@ -53,7 +53,7 @@ theorem settleConnect_acc (s : Sys) (cslot : Nat) (c : Connecting) (k : Kernel) 
   split
   · exact (hs.setKernel _ hk).congr rfl
   · exact (hs.setKernel _ hk).congr rfl
-  · exact (hs.setKernel _ (hk.close _)).congr rfl
+  · exact (hs.setKernel _ (hk.close _ _)).congr rfl
 
 theorem step_acc (s : Sys) (op : Op) (hs : SAcc s) : SAcc (s.step op).1 := by
   cases op with
@@ -69,7 +69,7 @@ theorem step_acc (s : Sys) (op : Op) (hs : SAcc s) : SAcc (s.step op).1 := by
     rw [Sys.step]
     split
     · exact hs
-    · exact (hs.setKernel _ ((hs.kernel _).close _)).congr rfl
+    · exact (hs.setKernel _ ((hs.kernel _).close _ _)).congr rfl
   | connect h cslot sslot peer =>
     rw [Sys.step]
     try dsimp only
@@ -84,7 +84,7 @@ theorem step_acc (s : Sys) (op : Op) (hs : SAcc s) : SAcc (s.step op).1 := by
     rw [Sys.step]
     split
     · exact hs
-    · exact (hs.setKernel _ ((hs.kernel _).close _)).congr rfl
+    · exact (hs.setKernel _ ((hs.kernel _).close _ _)).congr rfl
   | accept lslot sslot =>
     rw [Sys.step]
     split
@@ -122,7 +122,7 @@ theorem step_acc (s : Sys) (op : Op) (hs : SAcc s) : SAcc (s.step op).1 := by
     rw [Sys.step]
     split
     · exact hs
-    · exact (hs.setKernel _ ((hs.kernel _).close _)).congr rfl
+    · exact (hs.setKernel _ ((hs.kernel _).close _ _)).congr rfl
   | udpBind h uslot addr =>
     rw [Sys.step]
     have hb := (hs.kernel h).kbind addr true
